@@ -8,6 +8,8 @@ from manifest_meta import META, NOT_APPLICABLE, HOOK_COMMITS
 
 checks = []
 for pid in sorted(PROPS):
+    if pid not in META:
+        continue
     m = META[pid]
     checks.append(dict(
         property_id=pid,
@@ -26,7 +28,7 @@ man = dict(
     hooks=dict(guard='verif', enable='go build -tags verif (harness/cmd/h is built with the tag against /repo)',
                baseline_off_cmd='cd /repo && GOFLAGS=-mod=mod GOPROXY=off GOSUMDB=off go test -json -vet=off -count=1 ./...',
                source_commits=HOOK_COMMITS, add_only=True),
-    engines=[dict(name='coq-model+correspondence', path='/verif/coq', serves_properties=sorted(PROPS),
+    engines=[dict(name='coq-model+correspondence', path='/verif/coq', serves_properties=sorted(p for p in PROPS if p in META),
                   kind_free_text='Coq 8.16.1 theorems over a hand-written executable Gallina model; model tied to /repo on '
                                  'every run by differential execution (extracted OCaml model vs real package) with the '
                                  'specification predicates evaluated on implementation outputs')],
